@@ -95,3 +95,8 @@ PROPS['C16'] = dict(
     unit_modules=[], driver_modules=['drivers.c16'], level='other',
     level_text='tbd', level_note='tbd', assumptions=COMMON_ASSUMPTIONS,
 )
+
+PROPS['C18'] = dict(
+    unit_modules=[], driver_modules=['drivers.c18'], level='other',
+    level_text='tbd', level_note='tbd', assumptions=COMMON_ASSUMPTIONS, driver_budget_s=150,
+)
